@@ -106,6 +106,9 @@ pub fn reference_guard(
     if max_diff(&a, &b).0 > 1e-7 {
         return Err("ill-conditioned");
     }
+    if result.avg_underflow {
+        return Err("average-weights-underflow");
+    }
     if result.draws.len() != shaken.draws.len()
         || result.draws.iter().zip(shaken.draws.iter()).any(|(x, y)| x.choice != y.choice)
     {
@@ -122,15 +125,22 @@ pub fn pick_moderate_params(s: &mut Stream) -> (Params, &'static str) {
         3 => (Params::DCFR, "dcfr"),
         4 => (Params::DCFR_PRUNE, "dcfr_prune"),
         _ => {
-            let exp = |s: &mut Stream| match s.below(6) {
-                0 => f64::INFINITY,
-                1 => f64::NEG_INFINITY,
-                2 => 0.0,
+            let exp = |s: &mut Stream| match s.below(13) {
+                0 | 1 => f64::INFINITY,
+                2 | 3 => f64::NEG_INFINITY,
+                4 | 5 => 0.0,
+                // large finite exponents: t^x leaves the range of a double, the factor does not
+                6 => [30.0, -30.0, 300.0, -300.0, 1000.0, -1000.0][s.below(6)],
                 _ => (s.unit() * 2.0 - 1.0) * 5.0,
             };
             let a = exp(s);
             let b = exp(s);
-            let g = if s.bool() { 0.0 } else { 0.01 + s.unit() * 8.0 };
+            let g = match s.below(8) {
+                0..=3 => 0.0,
+                // heavy weighting of late iterations: early contributions become tiny, not zero
+                4 => [12.0, 20.0, 40.0, 100.0, 1000.0][s.below(5)],
+                _ => 0.01 + s.unit() * 8.0,
+            };
             let w = match s.below(5) {
                 0 => 0.0,
                 1 => f64::INFINITY,
